@@ -57,7 +57,7 @@ _RE_INV = re.compile(r"Error: Invariant (\S+) is violated")
 _RE_PROP = re.compile(r"Error: (?:Action|Temporal) propert(?:y|ies) (\S+)? ?(?:is|were) violated")
 _RE_ACTPROP = re.compile(r"Error: Action property (\S+) is violated")
 _RE_ASSUME = re.compile(r"Error: Assumption line (\d+), col (\d+) to line (\d+), col (\d+) of module (\S+) is false")
-_RE_COV = re.compile(r"^<(\w+) line (\d+), col \d+ to line \d+, col \d+ of module (\w+)>: (\d+):(\d+)")
+_RE_COV = re.compile(r"^<(\w+) line (\d+), col \d+ to line \d+, col \d+ of module (\w+)(?: \((\d+) \d+ \d+ \d+\))?>: (\d+):(\d+)")
 _RE_FP = re.compile(r"calculated \(optimistic\):\s+val = (\S+)")
 
 
@@ -96,8 +96,9 @@ def parse(out: str, rc: int, wall: float) -> TLCResult:
     for line in out.splitlines():
         mc = _RE_COV.match(line)
         if mc:
-            name = mc.group(1)
-            r.coverage[name] = r.coverage.get(name, 0) + int(mc.group(5))
+            # a quantified disjunct is reported under the enclosing definition with its own location: "T_Step@645"
+            name = mc.group(1) if mc.group(4) is None else f"{mc.group(1)}@{mc.group(4)}"
+            r.coverage[name] = r.coverage.get(name, 0) + int(mc.group(6))
             continue
         if line.startswith('<<"@@GEN@@", '):
             body = line[len('<<"@@GEN@@", '):]
